@@ -609,6 +609,8 @@ func (t *Tree) Compile(file string, args []string, out io.Writer) (err error) {
 
 	counts := [TypeLast]uint{}
 	countsByRule := make([]*[TypeLast]uint, t.RulesCount)
+	/* rules the grammar defines, as opposed to the empty rules link adds for undefined names */
+	defined := make(map[string]bool)
 
 	/* first pass */
 	for n := range t.Iterator() {
@@ -629,6 +631,7 @@ func (t *Tree) Compile(file string, args []string, out io.Writer) (err error) {
 			t.StructVariables = n.Front().String()
 		case TypeRule:
 			if _, ok := t.Rules[n.String()]; !ok {
+				defined[n.String()] = true
 				expression := n.Front()
 				cp := expression.Copy()
 				expression.Init()
@@ -1282,7 +1285,7 @@ func (t *Tree) Compile(file string, args []string, out io.Writer) (err error) {
 			continue
 		}
 		expression := element.Front()
-		if implicit := expression.Front(); expression.GetType() == TypeNil || implicit.GetType() == TypeNil {
+		if implicit := expression.Front(); expression.GetType() == TypeNil || (implicit.GetType() == TypeNil && !defined[element.String()]) {
 			if element.String() != "PegText" {
 				t.warn(fmt.Errorf("rule '%v' used but not defined", element))
 			}
